@@ -532,10 +532,15 @@ class HistogramBase(abc.ABC):
             )
             return histogram
         elif axis is None:
+            # Work on a copy, so that a failure in any axis leaves this histogram untouched
+            merged = self.copy()
             for i in range(self.ndim):
-                self.merge_bins(
+                merged.merge_bins(
                     amount=amount, min_frequency=min_frequency, axis=i, inplace=True
                 )
+            self._binnings = merged._binnings
+            self._frequencies = merged._frequencies
+            self._errors2 = merged._errors2
         else:
             axis = self._get_axis(axis)
             if amount is not None:
